@@ -192,6 +192,56 @@ def render(tree, atoms=None, qual=None):
     raise vlib.ToolError("cannot render operator %r" % op)
 
 
+PREC = {"or": 1, "and": 2, "not": 3}
+
+
+def render_min(tree, atoms=None, qual=None, only=None):
+    """SQL with only the parentheses that standard precedence requires (OR < AND < NOT < predicates); the operand of
+    IS [NOT] NULL is parenthesised when it is a predicate; the right operand of AND/OR keeps its parentheses when it is
+    the same connective (so that the tree shape is what is written).
+    only: a set of sites (key(node), operand index) - parentheses are dropped at these sites only."""
+    def prec(t):
+        return PREC.get(t[0], 4)
+
+    def wrap(t, j, needs_parens):
+        c = t[j]
+        if needs_parens or c[0] in ("tv", "opq") or (only is not None and (key(t), j) not in only):
+            return render(c, atoms, qual) if c[0] in ("tv", "opq") else "(" + r(c) + ")"
+        return r(c)
+
+    def r(t):
+        op = t[0]
+        if op in ("col", "lit", "tv", "opq"):
+            return render(t, atoms, qual)
+        if op in ("and", "or"):
+            return "%s %s %s" % (wrap(t, 1, prec(t[1]) < prec(t)), op.upper(), wrap(t, 2, prec(t[2]) <= prec(t)))
+        if op == "not":
+            return "NOT " + wrap(t, 1, prec(t[1]) < 3)
+        if op in ("isnull", "isnotnull"):
+            a = t[1]
+            sa = r(a) if a[0] in SCALAR else "(" + r(a) + ")"
+            return sa + (" IS NULL" if op == "isnull" else " IS NOT NULL")
+        return top(render(t, atoms, qual))
+    return r(tree)
+
+
+def paren_sites(tree):
+    """the sites (node, operand index) at which render_min drops a pair of parentheses"""
+    out = []
+    for n in nodes(tree):
+        if n[0] in ("and", "or"):
+            for j in (1, 2):
+                c = n[j]
+                needs = PREC.get(c[0], 4) < PREC[n[0]] if j == 1 else PREC.get(c[0], 4) <= PREC[n[0]]
+                if not needs and c[0] not in ("tv", "opq"):
+                    out.append((n, j))
+        elif n[0] == "not":
+            c = n[1]
+            if PREC.get(c[0], 4) >= 3 and c[0] not in ("tv", "opq"):
+                out.append((n, 1))
+    return out
+
+
 def top(sql):
     """strip the outermost pair of parentheses of a rendered predicate"""
     if sql.startswith("(") and sql.endswith(")"):
@@ -268,13 +318,14 @@ class Observer:
     """runs rendered queries in batches and caches the observation per (context, node key)"""
     CONTEXTS = {"where": "SELECT id FROM t WHERE %s", "where/indexed": "SELECT id FROM ti WHERE %s", "select": "SELECT id, %s FROM t"}
 
-    def __init__(self, setup, n, atoms=None, contexts=None, batch=200, kinds=None, pair_nu=None, qual=None):
+    def __init__(self, setup, n, atoms=None, contexts=None, batch=200, kinds=None, pair_nu=None, qual=None, renderers=None):
         """kinds: context -> "ids" (rows [id]) | "values" (rows [id, value]) | "pairs" (rows [id, uid], numbered
         (id - 1) * pair_nu + uid); default: "select" gives values, everything else ids"""
         self.setup, self.n, self.atoms, self.batch, self.qual = setup, n, atoms, batch, qual
         self.ctx = dict(contexts or self.CONTEXTS)
         self.kinds = dict(kinds or {})
         self.pair_nu = pair_nu
+        self.renderers = dict(renderers or {})       # context -> function(tree) -> SQL of the predicate
         self.obs = {}
         self.queries = 0
 
@@ -282,6 +333,8 @@ class Observer:
         return self.kinds.get(ctx, "values" if ctx == "select" else "ids")
 
     def sql(self, ctx, tree):
+        if ctx in self.renderers:
+            return self.ctx[ctx] % self.renderers[ctx](tree)
         return self.ctx[ctx] % top(render(tree, self.atoms, self.qual))
 
     def ensure(self, wanted):
@@ -410,14 +463,24 @@ class Blamer:
         return obs[j] != exp[j] if ctx == "select" else (obs[j] == "T") != (exp[j] == "T")
 
     def blame(self, ctx, tree):
-        """-> OrderedDict signature -> details; every failing row of the root is localised"""
+        """-> OrderedDict signature -> details; every failing row of the root is localised (rows that look the same at
+        every node - same expected and observed values, same NULL pattern of the input row - are localised once)"""
         sigs = collections.OrderedDict()
         exp_root, obs_root = self.expected_of(tree), self.ob.get(ctx, tree)
         rows = range(len(exp_root))
         if isinstance(obs_root, dict):
             rows = [0]          # an error is not row specific: localise once
+        ns = nodes(tree)
+        vecs = [(self.expected_of(n), self.ob.get(ctx, n)) for n in ns]
+        seen = set()
         for j in rows:
             if isinstance(obs_root, dict) or self.fails(ctx, tree, j):
+                row = self.row_of(j)
+                k = tuple(e[j] + (o[j] if not isinstance(o, dict) else "E") for e, o in vecs) + \
+                    (tuple(sorted((c, v[0]) for c, v in row.items() if isinstance(v, list))) if row else ())
+                if k in seen:
+                    continue
+                seen.add(k)
                 taint = {}
                 self._taint(ctx, tree, j, taint)
                 self._visit(ctx, tree, j, taint, sigs)
